@@ -1,6 +1,7 @@
 package w
 
 import (
+	"bytes"
 	"context"
 	"encoding/json"
 	"fmt"
@@ -126,11 +127,48 @@ func strKeyedNested(n int) map[string]interface{} {
 }
 
 func jsonEqual(a, b []byte) bool {
-	var x, y interface{}
-	if json.Unmarshal(a, &x) != nil || json.Unmarshal(b, &y) != nil {
+	// numbers are compared digit by digit (json.Number): a timestamp above 2^53 must not be "equal" to its float64 image
+	dec := func(bs []byte) (interface{}, bool) {
+		d := json.NewDecoder(bytes.NewReader(bs))
+		d.UseNumber()
+		var v interface{}
+		if d.Decode(&v) != nil {
+			return nil, false
+		}
+		return v, true
+	}
+	x, ok1 := dec(a)
+	y, ok2 := dec(b)
+	if !ok1 || !ok2 {
 		return string(a) == string(b)
 	}
-	return jsonStr(x) == jsonStr(y)
+	return jsonStr(floatValues(x, false)) == jsonStr(floatValues(y, false))
+}
+
+// floatValues turns the numbers below a member "V" (the user's values of an operation body: JSON numbers, i.e. float64
+// on every replica) into float64 and leaves every other number (timestamps: era, lamport, delimiter) exact.
+func floatValues(v interface{}, inValue bool) interface{} {
+	switch x := v.(type) {
+	case json.Number:
+		if inValue {
+			f, _ := x.Float64()
+			return f
+		}
+		return x
+	case map[string]interface{}:
+		out := make(map[string]interface{}, len(x))
+		for k, e := range x {
+			out[k] = floatValues(e, inValue || k == "V")
+		}
+		return out
+	case []interface{}:
+		out := make([]interface{}, len(x))
+		for i, e := range x {
+			out[i] = floatValues(e, inValue)
+		}
+		return out
+	}
+	return v
 }
 
 func sameOp(a, b *model.Operation) string {
@@ -172,6 +210,8 @@ func toErrD(v orda.Document, e errors.OrdaError) (interface{}, error)  { return 
 // c14Run executes one case; returns a violation or nil, plus a digest of the produced operations.
 func c14Run(kind string, nv *namedValue) (v *pt.Violation, digest string, produced int) {
 	fullKind := kind
+	big := strings.HasSuffix(kind, "@big")
+	kind = strings.TrimSuffix(kind, "@big")
 	key, key0, objKey := "k", "k0", "obj"
 	if i := strings.Index(kind, "@k"); i >= 0 {
 		var ki int
@@ -191,6 +231,30 @@ func c14Run(kind string, nv *namedValue) (v *pt.Violation, digest string, produc
 		vname, val = nv.name, nv.v
 	}
 	sig := func(what string) string { return fmt.Sprintf("C14:%s:%s:%s", what, fullKind, vname) }
+	if big {
+		// an operation of a third client whose logical clock is beyond 2^53 reaches both replicas first: every timestamp
+		// produced from here on (operation ids, targets and parents inside operation bodies, node identifiers) has a
+		// lamport that float64 cannot hold exactly
+		rb := w.reps[1]
+		switch typ {
+		case "list":
+			rb.li.Insert(0, "big")
+		case "map":
+			rb.mp.Put("big", "v")
+		case "doc":
+			rb.doc.PutToObject("big", "v")
+		default:
+			rb.cnt.IncreaseBy(1)
+		}
+		pend := w.Pending(1)
+		forged := cloneOp(pend[len(pend)-1])
+		forged.ID.CUID, forged.ID.Lamport, forged.ID.Seq = "zzzzzzzzzzzzzzzz", 1<<53+1, 1
+		for _, rr := range w.reps {
+			if _, e := rr.dt.ReceiveRemoteModelOperations([]*model.Operation{cloneOp(forged)}, false); e != nil {
+				return viol(sig("harness-big-clock"), "cannot deliver the far-clock operation: %v", e), "", 0
+			}
+		}
+	}
 	// prior state
 	switch typ {
 	case "list":
@@ -447,6 +511,15 @@ func init() {
 		}
 		for _, k := range c14Plain {
 			cases = append(cases, c14Case{Kind: k})
+		}
+		// the same with every logical clock beyond 2^53
+		for _, k := range c14OpKinds {
+			for _, vn := range []string{"s-ascii", "nested-2", "slice-iface"} {
+				cases = append(cases, c14Case{Kind: k + "@big", Value: vn})
+			}
+		}
+		for _, k := range c14Plain {
+			cases = append(cases, c14Case{Kind: k + "@big"})
 		}
 		for ki := range c14Keys {
 			for _, k := range c14KeyedValue {
